@@ -110,7 +110,8 @@ fn check(id: &str, tier: Tier) -> i32 {
         }
         "C11" => {
             let n = ctx.runs(4_000, 60_000);
-            run_check(&props::c11::C11, &ctx, &[("histories", n)], |_, _, _| Vec::new()).exit
+            let nc = ctx.runs(2_200, 12_000);
+            run_check(&props::c11::C11, &ctx, &[("histories", n), ("corpus", nc)], |_, _, _| Vec::new()).exit
         }
         "C07" => {
             let n = ctx.runs(12_000, 400_000);
